@@ -18,3 +18,21 @@ Proof.
   { induction ops0 as [|o r IH]; intros w Hw; cbn [xrun fold_left]; [exact Hw|]. apply IH. now apply xstep_wf. }
   apply H. unfold WF. cbn. constructor.
 Qed.
+
+(** ... and every recorded key lies below the next-child counter of its account path (C15), also
+    across loss and restore, scans and the kernel step *)
+Theorem xstep_fresh w x : Fresh w -> Fresh (fst (xstep w x)).
+Proof.
+  intros Hf. destruct x; cbn [xstep fst].
+  - apply step_fresh. exact Hf.
+  - apply fresh_empty.
+  - apply scan_repair_fresh. exact Hf.
+  - destruct Hf as [A B]. split; [exact A|exact B].
+Qed.
+
+Theorem xfresh_reachable : forall ops, Fresh (xrun empty_wallet ops).
+Proof.
+  intros ops. assert (H : forall ops w, Fresh w -> Fresh (xrun w ops)).
+  { induction ops0 as [|o r IH]; intros w Hw; cbn [xrun fold_left]; [exact Hw|]. apply IH. now apply xstep_fresh. }
+  apply H. apply fresh_empty.
+Qed.
